@@ -425,11 +425,23 @@ class SamplerTranslator:
             pat, c, env2 = self.bind(s, tgt, v, env)
             return f'{pad}let {pat} := {c} in\n' + self.block(rest, env2, cur, ctx, ind)
         if isinstance(s, ast.If):
-            if not (isinstance(s.test, ast.Name) and env.get(s.test.id) == T_BOOL):
+            test, body, orelse = s.test, list(s.body), list(s.orelse)
+            while isinstance(test, ast.UnaryOp) and isinstance(test.op, ast.Not):      # `if not c: A else: B` = `if c: B else: A`
+                test, body, orelse = test.operand, orelse, body
+            if isinstance(test, ast.Compare) and len(test.ops) == 1 and isinstance(test.ops[0], (ast.Eq, ast.Is, ast.NotEq, ast.IsNot)):
+                sides = [test.left, test.comparators[0]]                                # `c == True`, `False is c`, ... (either order)
+                lit = [x for x in sides if isinstance(x, ast.Constant) and isinstance(x.value, bool)]
+                nam = [x for x in sides if isinstance(x, ast.Name)]
+                if len(lit) == 1 and len(nam) == 1:
+                    flip = (lit[0].value is False) != isinstance(test.ops[0], (ast.NotEq, ast.IsNot))
+                    test = nam[0]
+                    if flip:
+                        body, orelse = orelse, body
+            if not (isinstance(test, ast.Name) and env.get(test.id) == T_BOOL):
                 self.err(s, f'loop test must be a boolean parameter: {ast.unparse(s.test)}')
-            a = self.block(list(s.body) + rest, env, cur, ctx, ind + 1)
-            b = self.block(list(s.orelse) + rest, env, cur, ctx, ind + 1)
-            return f'{pad}if {cid(s.test.id)} then\n{a}\n{pad}else\n{b}'
+            a = self.block(body + rest, env, cur, ctx, ind + 1)
+            b = self.block(orelse + rest, env, cur, ctx, ind + 1)
+            return f'{pad}if {cid(test.id)} then\n{a}\n{pad}else\n{b}'
         self.err(s, f'statement not accepted in a sampler loop: {type(s).__name__}')
 
     def subst_len(self, t, mapping):
@@ -458,6 +470,7 @@ class SamplerTranslator:
         if fn.decorator_list:
             self.err(fn, 'decorated generator')
         body = [s for s in fn.body if not (isinstance(s, ast.Expr) and isinstance(s.value, ast.Constant))]
+        body = self.inline_delegation(fn, body, names, depth=0)
         if not body or not isinstance(body[-1], ast.While):
             self.err(fn, 'the function must end with its `while True:` loop')
         loop = body[-1]
@@ -509,6 +522,71 @@ class SamplerTranslator:
         self._active = self._active - {fname}
         return info
 
+    def inline_delegation(self, fn, body, params, depth):
+        """`<prelude>; yield from g(a1, .., an)` as the last statement, g another accepted generator
+        function: replace it by `p1 = a1; ..; pn = an; <body of g>` (g's parameters bound to the
+        argument expressions, evaluated once, in order -- exactly what the call does).  Refused when
+        a name of g would capture or shadow a name the caller still needs."""
+        if not body:
+            return body
+        last = body[-1]
+        if not (isinstance(last, ast.Expr) and isinstance(last.value, ast.YieldFrom)):
+            return body
+        call = last.value.value
+        if depth > 3:
+            self.err(last, 'delegation chain too deep')
+        if not (isinstance(call, ast.Call) and isinstance(call.func, ast.Name) and call.func.id in self.funcs and call.func.id in SIGS):
+            self.err(last, f'`yield from` of something that is not an accepted generator function: {ast.unparse(call)[:60]}')
+        g = self.funcs[call.func.id]
+        if g is fn or call.func.id in getattr(self, '_active', set()) - {fn.name}:
+            self.err(last, 'recursive delegation')
+        ga = g.args
+        gparams = [p.arg for p in ga.args]
+        if ga.vararg or ga.kwarg or ga.kwonlyargs or ga.posonlyargs or g.decorator_list or gparams != [n for n, _ in SIGS[g.name]]:
+            self.err(g, f'signature of {g.name} changed: {gparams}')
+        # bind arguments (positional, keywords, defaults)
+        bound = {}
+        if len(call.args) > len(gparams) or any(isinstance(a, ast.Starred) for a in call.args):
+            self.err(last, 'too many / starred arguments in delegation')
+        for p, a in zip(gparams, call.args):
+            bound[p] = a
+        for kw in call.keywords:
+            if kw.arg is None or kw.arg not in gparams or kw.arg in bound:
+                self.err(last, f'keyword argument {kw.arg} in delegation')
+            bound[kw.arg] = kw.value
+        defaults = dict(zip(gparams[len(gparams) - len(ga.defaults):], ga.defaults))
+        for p in gparams:
+            if p not in bound:
+                if p not in defaults:
+                    self.err(last, f'missing argument {p} in delegation')
+                bound[p] = defaults[p]
+        gbody = [s for s in g.body if not (isinstance(s, ast.Expr) and isinstance(s.value, ast.Constant))]
+        g_names = {n.id for s in gbody for n in ast.walk(s) if isinstance(n, ast.Name)} | set(gparams)
+        caller_names = set(params) | {n.id for s in body[:-1] for n in ast.walk(s) if isinstance(n, ast.Name) and isinstance(n.ctx, ast.Store)}
+        binds = []
+        for p in gparams:
+            a = bound[p]
+            if isinstance(a, ast.Name) and a.id == p:
+                continue                                   # same name, same value: nothing to bind
+            if p in caller_names:
+                self.err(last, f'parameter {p} of {g.name} would shadow a name of {fn.name}')
+            binds.append(ast.copy_location(ast.Assign(targets=[ast.Name(id=p, ctx=ast.Store())], value=a, lineno=last.lineno), last))
+        # a later binding must not read a name bound by an earlier one (sequential lets vs simultaneous call)
+        seen = set()
+        for b in binds:
+            if self.reads(b.value) & seen:
+                self.err(last, 'argument expression reads a parameter name bound earlier')
+            seen.add(b.targets[0].id)
+        # locals of g must not capture names the argument expressions / caller prelude still mean
+        g_locals = {n.id for s in gbody for n in ast.walk(s) if isinstance(n, ast.Name) and isinstance(n.ctx, ast.Store)}
+        if g_locals & (caller_names - {p for p in gparams if isinstance(bound[p], ast.Name) and bound[p].id == p}):
+            self.err(last, f'a local of {g.name} would rebind a name of {fn.name}')
+        for b in binds:
+            ast.fix_missing_locations(b)
+        new_body = body[:-1] + binds + gbody
+        return self.inline_delegation(g, new_body, list(caller_names | set(gparams)), depth + 1) if gbody and isinstance(gbody[-1], ast.Expr) \
+            and isinstance(gbody[-1].value, ast.YieldFrom) else new_body
+
     def first_assignment(self, fn, v):
         best = 10 ** 9
         for n in ast.walk(fn):
@@ -517,12 +595,317 @@ class SamplerTranslator:
         return best
 
 
+# --------------------------------------------------------------------------- 3. training-loop fragments
+
+TRAIN_FUNCS = ['_train_1dspatial_temporal', '_train_2dspatial', '_train_2dspatial_temporal']
+CMP = {ast.Lt: lambda a, b: f'(Nat.ltb {a} {b})', ast.Gt: lambda a, b: f'(Nat.ltb {b} {a})',
+       ast.LtE: lambda a, b: f'(Nat.leb {a} {b})', ast.GtE: lambda a, b: f'(Nat.leb {b} {a})'}
+
+
+class LoopTranslator:
+    """Fail-closed extraction of (a) the index arithmetic of the mini-batch `while` loop of the
+    _train_* functions as Gallina `init / cond / body` over nat (state = the index variables the
+    loop assigns; one slice `idx[a:b]` emitted per iteration), (b) the history operations of
+    _solve_spatial_temporal as data."""
+
+    def __init__(self, repo, relpath=F):
+        self.relpath = relpath
+        self.tree = ast.parse(open(os.path.join(repo, relpath)).read())
+        self.funcs = {n.name: n for n in self.tree.body if isinstance(n, ast.FunctionDef)}
+
+    def err(self, node, what):
+        raise TranslationError(self.relpath, getattr(node, 'lineno', 0), 'loop translator: ' + what)
+
+    def names(self, e):
+        return {n.id for n in ast.walk(e) if isinstance(n, ast.Name)}
+
+    def iexpr(self, e, ok_names):
+        """non-negative integer expression over the index variables -> Coq nat expression"""
+        if isinstance(e, ast.Constant) and isinstance(e.value, int) and not isinstance(e.value, bool) and e.value >= 0:
+            return str(e.value)
+        if isinstance(e, ast.Name) and e.id in ok_names:
+            return cid(e.id)
+        if isinstance(e, ast.BinOp) and isinstance(e.op, (ast.Add, ast.Mult)):
+            op = '+' if isinstance(e.op, ast.Add) else '*'
+            return f'({self.iexpr(e.left, ok_names)} {op} {self.iexpr(e.right, ok_names)})'
+        self.err(e, f'index expression not accepted: {ast.unparse(e)}')
+
+    def bexpr(self, t, ok_names):
+        while isinstance(t, ast.UnaryOp) and isinstance(t.op, ast.Not):
+            return f'(negb {self.bexpr(t.operand, ok_names)})'
+        if isinstance(t, ast.Compare) and len(t.ops) == 1 and type(t.ops[0]) in CMP:
+            return CMP[type(t.ops[0])](self.iexpr(t.left, ok_names), self.iexpr(t.comparators[0], ok_names))
+        self.err(t, f'loop test not accepted: {ast.unparse(t)}')
+
+    def train_loop(self, fname):
+        if fname not in self.funcs:
+            raise TranslationError(self.relpath, 0, f'loop translator: {fname} not found')
+        fn = self.funcs[fname]
+        whiles = [s for s in fn.body if isinstance(s, ast.While)]
+        if len(whiles) != 1 or any(isinstance(n, (ast.While, ast.For)) and n is not whiles[0] for s in fn.body for n in ast.walk(s)
+                                   if isinstance(s, (ast.While, ast.For)) and n is not s and n is not whiles[0]):
+            self.err(fn, 'expected exactly one top-level while loop')
+        loop = whiles[0]
+        if loop.orelse:
+            self.err(loop, 'while-else')
+        for n in ast.walk(loop):
+            if isinstance(n, (ast.Break, ast.Continue, ast.Return, ast.Yield, ast.YieldFrom, ast.Try, ast.With)) or \
+                    (isinstance(n, (ast.While, ast.For)) and n is not loop):
+                self.err(n, f'{type(n).__name__} inside the mini-batch loop')
+        # the slices of the index permutation taken in the loop
+        slices = [n for n in ast.walk(loop) if isinstance(n, ast.Subscript) and isinstance(n.slice, ast.Slice)]
+        if len(slices) != 1 or not isinstance(slices[0].value, ast.Name) or slices[0].slice.step is not None \
+                or slices[0].slice.lower is None or slices[0].slice.upper is None:
+            self.err(loop, 'expected exactly one slice `idx[a:b]` in the loop')
+        sl = slices[0]
+        perm = sl.value.id
+        # index variables: those of the loop test and of the slice bounds, closed under the assignments of the loop
+        control = self.names(loop.test) | self.names(sl.slice.lower) | self.names(sl.slice.upper)
+        changed = True
+        while changed:
+            changed = False
+            for n in ast.walk(loop):
+                tg, val = None, None
+                if isinstance(n, ast.Assign) and len(n.targets) == 1 and isinstance(n.targets[0], ast.Name):
+                    tg, val = n.targets[0].id, n.value
+                elif isinstance(n, ast.AugAssign) and isinstance(n.target, ast.Name):
+                    tg, val = n.target.id, n.value
+                if tg in control and not self.names(val) <= control:
+                    control |= self.names(val)
+                    changed = True
+        assigned = set()
+        for n in ast.walk(loop):
+            if isinstance(n, ast.Name) and isinstance(n.ctx, ast.Store):
+                assigned.add(n.id)
+        if perm in assigned or perm in control:
+            self.err(loop, f'the sliced sequence {perm} is modified or used as an index')
+        state = sorted(control & assigned, key=lambda v: min(n.lineno * 1000 + n.col_offset for n in ast.walk(fn)
+                                                            if isinstance(n, ast.Name) and n.id == v))
+        params = sorted(control - assigned, key=lambda v: min(n.lineno * 1000 + n.col_offset for n in ast.walk(fn)
+                                                              if (isinstance(n, ast.Name) and n.id == v) or (isinstance(n, ast.arg) and n.arg == v)))
+        if not state:
+            self.err(loop, 'the loop assigns no index variable')
+        # initial values: the last assignment before the loop to each state variable
+        pre = fn.body[:fn.body.index(loop)]
+        init = {}
+        for s in pre:
+            if isinstance(s, ast.Assign) and len(s.targets) == 1:
+                t = s.targets[0]
+                if isinstance(t, ast.Name) and t.id in state:
+                    init[t.id] = s.value
+                elif isinstance(t, ast.Tuple) and isinstance(s.value, ast.Tuple) and len(t.elts) == len(s.value.elts):
+                    for a, b in zip(t.elts, s.value.elts):
+                        if isinstance(a, ast.Name) and a.id in state:
+                            init[a.id] = b
+                elif any(isinstance(n, ast.Name) and n.id in state for n in ast.walk(t)):
+                    self.err(s, 'unrecognised initialisation of an index variable')
+            elif any(isinstance(n, ast.Name) and isinstance(n.ctx, ast.Store) and n.id in state for n in ast.walk(s)):
+                self.err(s, 'unrecognised initialisation of an index variable')
+        if set(init) != set(state):
+            self.err(loop, f'index variables {sorted(set(state) - set(init))} have no initial value')
+        init_txt = ', '.join(self.iexpr(init[v], set(params)) for v in state)
+        # the permutation: <perm> = torch.randperm(N) if <shuffle> else torch.arange(N), N the loop bound
+        pdef = [s for s in pre if isinstance(s, ast.Assign) and len(s.targets) == 1 and ast.unparse(s.targets[0]) == perm]
+        perm_of = None
+        if len(pdef) == 1 and isinstance(pdef[0].value, ast.IfExp):
+            a, b = pdef[0].value.body, pdef[0].value.orelse
+            if isinstance(a, ast.Call) and isinstance(b, ast.Call) and {ast.unparse(a.func), ast.unparse(b.func)} == {'torch.randperm', 'torch.arange'} \
+                    and len(a.args) == 1 and len(b.args) == 1 and ast.unparse(a.args[0]) == ast.unparse(b.args[0]) and isinstance(a.args[0], ast.Name):
+                perm_of = a.args[0].id
+        if perm_of is None or perm_of not in params:
+            self.err(loop, f'{perm} is not `torch.randperm(N) if shuffle else torch.arange(N)` with N an index parameter of the loop')
+        # what is done with the slice: every tensor handed to calculate_loss inside the loop is <tensor>[<the slice>] or loop-invariant
+        batch_names = set()
+        for n in ast.walk(loop):
+            if isinstance(n, ast.Assign) and n.value is sl and len(n.targets) == 1 and isinstance(n.targets[0], ast.Name):
+                batch_names.add(n.targets[0].id)
+        indexed = {}
+        for n in ast.walk(loop):
+            if isinstance(n, ast.Assign) and len(n.targets) == 1 and isinstance(n.targets[0], ast.Name) and isinstance(n.value, ast.Subscript) \
+                    and isinstance(n.value.value, ast.Name) and (n.value.slice is sl.slice or (isinstance(n.value.slice, ast.Name) and n.value.slice.id in batch_names)):
+                indexed[n.targets[0].id] = n.value.value.id
+        calls = [n for n in ast.walk(loop) if isinstance(n, ast.Call) and ast.unparse(n.func).endswith('.calculate_loss')]
+        if len(calls) != 1:
+            self.err(loop, 'expected exactly one calculate_loss call in the loop')
+        batched = []
+        for a in calls[0].args:
+            if not isinstance(a, ast.Name):
+                self.err(a, 'calculate_loss argument is not a name')
+            if a.id in indexed:
+                if indexed[a.id] in assigned:
+                    self.err(a, 'the indexed tensor is modified in the loop')
+                batched.append(indexed[a.id])
+            elif a.id in assigned:
+                self.err(a, f'calculate_loss argument {a.id} is computed in the loop but is not <tensor>[<batch indices>]')
+        if not batched:
+            self.err(calls[0], 'no batched tensor is passed to calculate_loss')
+        # the body: statements that touch index variables become lets, the slice becomes the emitted value
+        ctx = {'emitted': 0}
+        ok = set(state) | set(params)
+
+        def block(stmts, k):
+            """-> Coq text for the statements followed by continuation text k"""
+            if not stmts:
+                return k
+            s, rest = stmts[0], stmts[1:]
+            touches = any(isinstance(n, ast.Name) and isinstance(n.ctx, ast.Store) and n.id in control for n in ast.walk(s))
+            has_slice = any(n is sl for n in ast.walk(s))
+            if has_slice:
+                if touches or not isinstance(s, ast.Assign):
+                    self.err(s, 'the slice must be taken in a plain assignment')
+                ctx['emitted'] += 1
+                return f"let out := ({self.iexpr(sl.slice.lower, ok)}, {self.iexpr(sl.slice.upper, ok)}) in\n  " + block(rest, k)
+            if not touches:
+                return block(rest, k)                 # payload: tensors, loss, optimiser
+            if isinstance(s, ast.Assign) and len(s.targets) == 1 and isinstance(s.targets[0], ast.Name):
+                return f'let {cid(s.targets[0].id)} := {self.iexpr(s.value, ok)} in\n  ' + block(rest, k)
+            if isinstance(s, ast.AugAssign) and isinstance(s.target, ast.Name) and isinstance(s.op, ast.Add):
+                return f'let {cid(s.target.id)} := ({cid(s.target.id)} + {self.iexpr(s.value, ok)}) in\n  ' + block(rest, k)
+            if isinstance(s, ast.If):
+                if any(n is sl for n in ast.walk(s)):
+                    self.err(s, 'conditional slice')
+                tg = sorted({n.id for n in ast.walk(s) if isinstance(n, ast.Name) and isinstance(n.ctx, ast.Store) and n.id in control})
+                pat = tg[0] if len(tg) == 1 else "'(" + ', '.join(cid(v) for v in tg) + ')'
+                tup = cid(tg[0]) if len(tg) == 1 else '(' + ', '.join(cid(v) for v in tg) + ')'
+                for n in ast.walk(s):
+                    if isinstance(n, ast.stmt) and n is not s and not isinstance(n, (ast.Assign, ast.AugAssign, ast.If, ast.Pass)):
+                        self.err(n, 'statement not accepted in a conditional on index variables')
+                a = block(list(s.body), tup)
+                b = block(list(s.orelse), tup)
+                return f'let {pat} := (if {self.bexpr(s.test, ok)} then {a} else {b}) in\n  ' + block(rest, k)
+            self.err(s, f'statement on index variables not accepted: {ast.unparse(s)[:60]}')
+        st_tuple = '(' + ', '.join(cid(v) for v in state) + ')' if len(state) > 1 else cid(state[0])
+        st_pat = "'" + st_tuple if len(state) > 1 else st_tuple
+        body_txt = block(list(loop.body), f'(out, {st_tuple})')
+        if ctx['emitted'] != 1:
+            self.err(loop, 'the slice is not taken exactly once per iteration on every path')
+        name = fname.lstrip('_')
+        ptxt = ' '.join(f'({cid(p)} : nat)' for p in params)
+        st_ty = ' * '.join('nat' for _ in state)
+        coq = '\n'.join([
+            f'(* {fname}: while loop at line {loop.lineno}; index state {state}; parameters {params}; sliced sequence `{perm}` = a permutation of range({perm_of});',
+            f'   calculate_loss receives {batched} indexed by the slice *)',
+            f'Definition {name}_loop_params : list string := [{"; ".join(chr(34) + p + chr(34) for p in params)}]%string.',
+            f'Definition {name}_loop_bound : string := "{perm_of}"%string.',
+            f'Definition {name}_loop_init {ptxt} : ({st_ty})%type := ({init_txt}).',
+            f'Definition {name}_loop_cond {ptxt} (st : ({st_ty})%type) : bool :=\n  let {st_pat} := st in {self.bexpr(loop.test, ok)}.',
+            f'Definition {name}_loop_body {ptxt} (st : ({st_ty})%type) : ((nat * nat) * ({st_ty}))%type :=\n  let {st_pat} := st in\n  {body_txt}.'])
+        return {'name': name, 'state': state, 'params': params, 'perm_of': perm_of, 'coq': coq, 'line': loop.lineno}
+
+    # ------------------------------------------------------------------ history operations
+    def history(self, fname='_solve_spatial_temporal'):
+        if fname not in self.funcs:
+            raise TranslationError(self.relpath, 0, f'loop translator: {fname} not found')
+        fn = self.funcs[fname]
+        body = [s for s in fn.body if not (isinstance(s, ast.Expr) and isinstance(s.value, ast.Constant))]
+        if len(body) != 4 or not isinstance(body[0], ast.Assign) or not isinstance(body[1], ast.For) or not isinstance(body[2], ast.For) \
+                or not isinstance(body[3], ast.Return):
+            self.err(fn, 'expected: history literal, metric-key loop, epoch loop, return')
+        h = body[0]
+        if not (len(h.targets) == 1 and isinstance(h.targets[0], ast.Name) and isinstance(h.value, ast.Dict)):
+            self.err(h, 'history must start as a dict literal')
+        H = h.targets[0].id
+        keys = []
+        for k, v in zip(h.value.keys, h.value.values):
+            if not (isinstance(k, ast.Constant) and isinstance(k.value, str) and isinstance(v, ast.List) and not v.elts):
+                self.err(h, 'history literal must map string keys to []')
+            keys.append(k.value)
+        # for <m>, _ in metrics.items(): history['p' + m] = []
+        ml = body[1]
+        mparam = 'metrics'
+        it = ast.unparse(ml.iter)
+        if it == f'{mparam}.items()' and isinstance(ml.target, ast.Tuple) and isinstance(ml.target.elts[0], ast.Name):
+            mvar = ml.target.elts[0].id
+        elif it in (mparam, f'{mparam}.keys()') and isinstance(ml.target, ast.Name):
+            mvar = ml.target.id
+        else:
+            self.err(ml, 'metric-key loop must iterate over the metrics dictionary')
+        prefixes = []
+        for s in ml.body:
+            if isinstance(s, ast.Assign) and len(s.targets) == 1 and isinstance(s.targets[0], ast.Subscript) \
+                    and ast.unparse(s.targets[0].value) == H and isinstance(s.value, ast.List) and not s.value.elts:
+                prefixes.append(self.prefix_of(s.targets[0].slice, mvar))
+            else:
+                self.err(s, 'statement not accepted in the metric-key loop')
+        # for epoch in range(max_epochs): ...
+        el = body[2]
+        if not (isinstance(el.iter, ast.Call) and ast.unparse(el.iter.func) == 'range' and len(el.iter.args) == 1
+                and isinstance(el.iter.args[0], ast.Name) and el.iter.args[0].id in [a.arg for a in fn.args.args]) or el.orelse:
+            self.err(el, 'epoch loop must be `for epoch in range(<max_epochs parameter>)`')
+        env, ops = {}, []
+        for s in el.body:
+            if isinstance(s, ast.Assign) and len(s.targets) == 1 and isinstance(s.targets[0], ast.Tuple) and len(s.targets[0].elts) == 2 \
+                    and isinstance(s.value, ast.Call) and isinstance(s.value.func, ast.Name) and s.value.func.id in ('train_routine', 'valid_routine'):
+                tr = s.value.func.id == 'train_routine'
+                a, b = s.targets[0].elts
+                if not (isinstance(a, ast.Name) and isinstance(b, ast.Name)):
+                    self.err(s, 'routine result must be unpacked into two names')
+                env[a.id], env[b.id] = ('loss', tr), ('metrics', tr)
+                continue
+            if isinstance(s, ast.Expr) and isinstance(s.value, ast.Call) and isinstance(s.value.func, ast.Attribute) and s.value.func.attr == 'append' \
+                    and isinstance(s.value.func.value, ast.Subscript) and ast.unparse(s.value.func.value.value) == H:
+                k = s.value.func.value.slice
+                if not (isinstance(k, ast.Constant) and isinstance(k.value, str) and len(s.value.args) == 1 and isinstance(s.value.args[0], ast.Name)
+                        and env.get(s.value.args[0].id, (None,))[0] == 'loss'):
+                    self.err(s, 'history append not accepted')
+                ops.append(('loss', k.value, env[s.value.args[0].id][1]))
+                continue
+            if isinstance(s, ast.For) and isinstance(s.iter, ast.Call) and isinstance(s.iter.func, ast.Attribute) and s.iter.func.attr == 'items' \
+                    and isinstance(s.iter.func.value, ast.Name) and env.get(s.iter.func.value.id, (None,))[0] == 'metrics' \
+                    and isinstance(s.target, ast.Tuple) and len(s.target.elts) == 2 and all(isinstance(x, ast.Name) for x in s.target.elts) \
+                    and len(s.body) == 1 and not s.orelse:
+                mk, mv = s.target.elts[0].id, s.target.elts[1].id
+                c = s.body[0]
+                if not (isinstance(c, ast.Expr) and isinstance(c.value, ast.Call) and isinstance(c.value.func, ast.Attribute) and c.value.func.attr == 'append'
+                        and isinstance(c.value.func.value, ast.Subscript) and ast.unparse(c.value.func.value.value) == H
+                        and [ast.unparse(x) for x in c.value.args] == [mv]):
+                    self.err(c, 'metric append not accepted')
+                ops.append(('metrics', self.prefix_of(c.value.func.value.slice, mk), env[s.iter.func.value.id][1]))
+                continue
+            if any((isinstance(n, ast.Name) and n.id == H and isinstance(n.ctx, ast.Store)) for n in ast.walk(s)) or \
+                    any(isinstance(n, ast.Subscript) and ast.unparse(n.value) == H and isinstance(n.ctx, (ast.Store, ast.Del)) for n in ast.walk(s)) or \
+                    any(isinstance(n, ast.Attribute) and n.attr in ('append', 'extend', 'pop', 'clear', 'update', 'insert', 'remove', 'setdefault')
+                        and H in self.names(n.value) for n in ast.walk(s)) or \
+                    any(isinstance(n, (ast.Break, ast.Continue, ast.Return)) for n in ast.walk(s)):
+                self.err(s, 'statement changes the history / leaves the epoch loop in an unrecognised way')
+        ret = body[3].value
+        if not (isinstance(ret, ast.Tuple) and len(ret.elts) == 2 and ast.unparse(ret.elts[1]) == H):
+            self.err(body[3], 'the history must be returned as the second component')
+        q = lambda x: chr(34) + x + chr(34)
+        coq = '\n'.join([
+            f'(* {fname}: history literal at line {h.lineno}, epoch loop at line {el.lineno} *)',
+            f'Definition history_init_keys : list string := [{"; ".join(q(k) for k in keys)}]%string.',
+            f'Definition history_init_prefixes : list string := [{"; ".join(q(k) for k in prefixes)}]%string.',
+            'Definition history_epoch_ops : list hop :=\n  [' + ';\n   '.join(
+                f'{"HLoss" if kind == "loss" else "HMetrics"} {q(k)}%string {"true" if tr else "false"}' for kind, k, tr in ops) + '].'])
+        return {'keys': keys, 'prefixes': prefixes, 'ops': ops, 'coq': coq}
+
+    def prefix_of(self, e, var):
+        if isinstance(e, ast.BinOp) and isinstance(e.op, ast.Add) and isinstance(e.left, ast.Constant) and isinstance(e.left.value, str) \
+                and isinstance(e.right, ast.Name) and e.right.id == var:
+            return e.left.value
+        if isinstance(e, ast.JoinedStr) and len(e.values) == 2 and isinstance(e.values[0], ast.Constant) \
+                and isinstance(e.values[1], ast.FormattedValue) and isinstance(e.values[1].value, ast.Name) and e.values[1].value.id == var \
+                and e.values[1].conversion == -1 and e.values[1].format_spec is None:
+            return e.values[0].value
+        self.err(e, f'history key must be <literal prefix> + <metric name>: {ast.unparse(e)}')
+
+
 SAMPLER_HEADER = """
 (* ---------------------------------------------------------------------------------------
    Sampler generator functions of {file} as STEP functions (tools/props/t_C20.py).
    `rnd c i` = element i of the c-th `torch.rand` call; `cur` = number of calls made so far. *)
 From Coq Require Import String.
 From ND.model Require Import Legacy.
+"""
+
+
+LOOP_HEADER = """
+(* ---------------------------------------------------------------------------------------
+   Index arithmetic of the mini-batch `while` loops of the _train_* functions and the history
+   operations of _solve_spatial_temporal (tools/props/t_C20.py, LoopTranslator).  Driven by
+   `while_fuel` / `gen_solve` of coq/model/Legacy.v. *)
+Local Open Scope nat_scope.
 """
 
 
@@ -541,10 +924,17 @@ def generate(repo, outdir):
             t = Target(fname, F, None)
             tr.translate(fname)
         order = list(tr.done)      # callees first
+        lt = LoopTranslator(repo)
+        loops = []
+        for fname in TRAIN_FUNCS:
+            t = Target(fname, F, None)
+            loops.append(lt.train_loop(fname))
+        t = Target('_solve_spatial_temporal', F, None)
+        hist = lt.history()
     except TranslationError as e:
         return False, {'error': str(e), 'file': e.file, 'line': e.line, 'target': t.name if t else '?'}
     text = HEADER.format(files=F) + '\n'.join(mods) + SAMPLER_HEADER.format(file=F) + '\n' + \
-        '\n\n'.join(tr.done[f]['coq'] for f in order) + '\n'
+        '\n\n'.join(tr.done[f]['coq'] for f in order) + '\n' + LOOP_HEADER + '\n\n'.join(l['coq'] for l in loops) + '\n\n' + hist['coq'] + '\n'
     os.makedirs(outdir, exist_ok=True)
     vpath = os.path.join(outdir, 'Gen_C20.v')
     old = open(vpath).read() if os.path.exists(vpath) else None
@@ -557,9 +947,12 @@ def generate(repo, outdir):
                                                               'names': r['names']}
     samplers = {f: {'carried': tr.done[f]['carried'], 'lines': tr.done[f]['lines']} for f in order}
     js['__samplers__'] = samplers
+    js['__loops__'] = {l['name']: {'state': l['state'], 'params': l['params'], 'line': l['line']} for l in loops}
+    js['__history__'] = {'keys': hist['keys'], 'prefixes': hist['prefixes'], 'ops': hist['ops']}
     with open(os.path.join(outdir, 'Gen_C20.json'), 'w') as f:
         json.dump(js, f)
-    return True, {'results': results, 'samplers': samplers, 'vpath': vpath, 'changed': old != text}
+    return True, {'results': results, 'samplers': samplers, 'loops': js['__loops__'], 'history': js['__history__'], 'vpath': vpath,
+                  'changed': old != text}
 
 
 def setup_generate():
